@@ -19,6 +19,10 @@ OPEN = [
     ('C02', 'bitwise-operand-32768..65535-raises-overflow',
      'AND/OR/XOR/EQV/IMP/NOT raise Overflow for an operand in 32768..65535 (PRINT 40000 AND 1) although the statement '
      'says operands up to 65535 are accepted. ' + NOT_REPAIRED + '(D-S1)'),
+    ('C02', 'mod:quotient-leaves-range:remainder-returned-instead-of-overflow',
+     '-32768 MOD -1 returns 0 although the statement says MOD raises Overflow when the quotient leaves -32768..32767 '
+     '(the one pair where it does). Not repaired: neither the documentation nor the test corpus pins what GW-BASIC does '
+     'for this pair, and the remainder itself is representable; raising Overflow instead could break working programs.'),
     ('C18', 'int-arith-result-is-single',
      'integer + - * and unary minus return a single of equal value (statement: widest operand type). ' + NOT_REPAIRED + '(D-S2)'),
     ('C18', 'pow-double-operand-result-is-single',
